@@ -41,7 +41,7 @@ impl RngCore for Real {
     fn fill_bytes(&mut self, d: &mut [u8]) { match self { Real::Std(r) => r.fill_bytes(d), Real::Small(r) => r.fill_bytes(d), Real::Mix(r) => r.fill_bytes(d) } }
     fn try_fill_bytes(&mut self, d: &mut [u8]) -> Result<(), rand::Error> { self.fill_bytes(d); Ok(()) }
 }
-fn real_rng(kind: u64, seed: u64) -> Real {
+pub fn real_rng(kind: u64, seed: u64) -> Real {
     match kind % 3 { 0 => Real::Std(rand::rngs::StdRng::seed_from_u64(seed)), 1 => Real::Small(rand::rngs::SmallRng::seed_from_u64(seed)), _ => Real::Mix(Script::Mix(Rng::new(seed))) }
 }
 
@@ -94,6 +94,8 @@ macro_rules! sampled {
     };
 }
 
+// the macros are re-exported for the coverage audit (`c19_more.rs`), which instantiates them for further type parameters
+#[allow(unused_imports)] pub(crate) use {getc, namec, sampled};
 type Brad = palette::lms::matrix::Bradford;
 macro_rules! all_types { ($t:ty) => {
     sampled!($t, palette::rgb::Rgb<S, $t>, "Rgb", Fam::Cartesian, 1.0, [c red, c green, c blue], |a| palette::rgb::Rgb::new(a[0], a[1], a[2]),
@@ -150,7 +152,7 @@ all_types!(f64);
 /// hue arc: `h` is congruent to a point of the arc that starts at `a` and runs upwards by `(b - a) mod 360`
 /// (the whole circle when the raw ends differ by a positive multiple of 360).  Evaluated in f64 on the exact component values;
 /// `tol` absorbs the rounding of palette's own normalisation (`x - floor(x/360)*360` in `T`).
-fn on_arc(a: f64, b: f64, h: f64, tol: f64) -> bool {
+pub fn on_arc(a: f64, b: f64, h: f64, tol: f64) -> bool {
     if !(a.is_finite() && b.is_finite() && h.is_finite()) { return false; }
     let span = (b - a).rem_euclid(360.0);
     if b > a && (span <= tol || span >= 360.0 - tol) { return true; } // full circle
@@ -158,10 +160,10 @@ fn on_arc(a: f64, b: f64, h: f64, tol: f64) -> bool {
     off <= span + tol || off >= 360.0 - tol
 }
 
-struct Ends<T> { lo: Vec<T>, hi: Vec<T>, alo: T, ahi: T }
+pub struct Ends<T> { pub lo: Vec<T>, pub hi: Vec<T>, pub alo: T, pub ahi: T }
 
 /// containment of one uniform sample (colour part `x`, protocol order)
-fn check_uniform<T: Flt, C: Sampled<T>>(out: &mut Out, e: &Ends<T>, c: &C, tag: &str, ctx: &str) where Standard: Distribution<C> + Distribution<T> {
+pub fn check_uniform<T: Flt, C: Sampled<T>>(out: &mut Out, e: &Ends<T>, c: &C, tag: &str, ctx: &str) where Standard: Distribution<C> + Distribution<T> {
     let names = C::names();
     let x = c.comps();
     for i in 0..names.len() {
@@ -203,7 +205,7 @@ fn check_uniform<T: Flt, C: Sampled<T>>(out: &mut Out, e: &Ends<T>, c: &C, tag: 
     }
 }
 
-fn check_standard<T: Flt, C: Sampled<T>>(out: &mut Out, c: &C, tag: &str) where Standard: Distribution<C> + Distribution<T> {
+pub fn check_standard<T: Flt, C: Sampled<T>>(out: &mut Out, c: &C, tag: &str) where Standard: Distribution<C> + Distribution<T> {
     out.check(c.within(), &format!("standard-within-bounds:{}", tag), || format!("{:?} is not within bounds", c.comps()));
     let names = C::names(); let x = c.comps();
     for i in 0..names.len() { if names[i] == "hue" { let h = x[i].to64(); out.check(0.0 <= h && h <= 360.0, &format!("standard-hue-in-circle:{}", tag), || format!("hue {}", h)); } }
@@ -211,7 +213,7 @@ fn check_standard<T: Flt, C: Sampled<T>>(out: &mut Out, c: &C, tag: &str) where 
 }
 
 // ------------------------------------------------------------------------------------------------ end points
-fn hue_pairs(rng: &mut Rng, incl: bool) -> (f64, f64) {
+pub fn hue_pairs(rng: &mut Rng, incl: bool) -> (f64, f64) {
     let fixed: [(f64, f64); 16] = [(10.0, 20.0), (350.0, 370.0), (-10.0, 10.0), (0.0, 360.0), (10.0, 370.0), (0.0, 720.0), (359.5, 360.5), (-720.0, -700.0),
         (180.0, 180.5), (0.0, 1e-3), (-0.25, 0.25), (90.0, 449.0), (-180.0, 180.0), (300.0, 420.0), (719.0, 725.0), (-1.0, 0.0)];
     match rng.below(8) {
@@ -225,7 +227,7 @@ fn hue_pairs(rng: &mut Rng, incl: bool) -> (f64, f64) {
 }
 
 /// ordered end points (`lo < hi` in every component, `lo <= hi` allowed when `incl`), in protocol order
-fn gen_ends<T: Flt, C: Sampled<T>>(rng: &mut Rng, incl: bool, equal: bool) -> Ends<T> where Standard: Distribution<C> + Distribution<T> {
+pub fn gen_ends<T: Flt, C: Sampled<T>>(rng: &mut Rng, incl: bool, equal: bool) -> Ends<T> where Standard: Distribution<C> + Distribution<T> {
     let names = C::names(); let ranges = C::ranges();
     let mut lo = vec![]; let mut hi = vec![];
     for i in 0..names.len() {
@@ -267,9 +269,9 @@ fn gen_ends<T: Flt, C: Sampled<T>>(rng: &mut Rng, incl: bool, equal: bool) -> En
 // ------------------------------------------------------------------------------------------------ per type
 fn wp<T: Flt>() -> [T; 3] where D65: WhitePoint<T>, Standard: Distribution<T> { let w = <D65 as WhitePoint<T>>::get_xyz(); [w.x, w.y, w.z] }
 
-fn n_draws<T: Flt, C: Sampled<T>>() -> usize where Standard: Distribution<C> + Distribution<T> { if C::FAM == Fam::Cartesian { C::names().len() } else { 3 } }
+pub fn n_draws<T: Flt, C: Sampled<T>>() -> usize where Standard: Distribution<C> + Distribution<T> { if C::FAM == Fam::Cartesian { C::names().len() } else { 3 } }
 
-fn scripts(rng: &mut Rng, n: usize) -> Vec<Script> {
+pub fn scripts(rng: &mut Rng, n: usize) -> Vec<Script> {
     let mut v = vec![Script::Const(0), Script::Const(u64::MAX), Script::Const(1u64 << 63), Script::Count(0, 0x1234_5678_9abc_def1), Script::Count(0x8000_0000_0000_0000, 0x0fff_ffff_ffff_ffff)];
     for _ in 0..n { v.push(match rng.below(4) { 0 => Script::Const(rng.next()), 1 => Script::Count(rng.next(), rng.next() | 1), _ => Script::Mix(Rng::new(rng.next())) }); }
     v
@@ -513,6 +515,8 @@ macro_rules! xyz_white_points { ($out:expr, $rng:expr, $deep:expr, $t:ty, [$($w:
     } )*
 }} }
 
+#[allow(unused_imports)] pub(crate) use xyz_white_points;
+
 pub fn run(tier: &str, seed: u64, dir: &str) {
     let mut out = Out::new("C19", dir);
     let mut rng = Rng::new(seed);
@@ -522,5 +526,8 @@ pub fn run(tier: &str, seed: u64, dir: &str) {
     run_hues!(&mut out, &mut rng, deep, f32);
     run_hues!(&mut out, &mut rng, deep, f64);
     xyz_white_points!(out, rng, deep, f32, [A, B, C, D50, D55, D65, D75, E, F2, F7, F11]); xyz_white_points!(out, rng, deep, f64, [A, B, C, D50, D55, D65, D75, E, F2, F7, F11]);
+    // coverage audit: entry points, type parameters, alpha component types, end points and joint bins the clauses above do not drive
+    // (`c19_more.rs`).  Called last, so that the case stream above is unchanged.
+    crate::c19_more::run_more(&mut out, &mut rng, deep);
     out.finish(dir, "");
 }
